@@ -560,7 +560,12 @@ def r5_delegation(ctx, cls, file) -> None:
     q = "hugr.utils.BiMap."
 
     def single_return(fn):
-        b = real_body(fn)
+        # the canonical body: temporaries substituted, a guarded subscript is the .get it spells, mixin lookups resolved
+        try:
+            b = ctx.cfn(q + fn.name).body
+        except Exception:
+            b = real_body(fn)
+        b = [x for x in b if not isinstance(x, ast.Pass)]
         if len(b) == 1 and isinstance(b[0], ast.Return):
             return b[0].value
         if len(b) == 1 and isinstance(b[0], ast.Expr):
